@@ -11,13 +11,14 @@ RULE = ("RFC 8259 texts rendered from seeded syntax trees (all escape forms, sur
         "container or escape or non-integer inside; distinct by text")
 ASSUMPTIONS = ["strtod is correctly rounded (checked against Python's float() on every run)",
                "the extracted model uses OCaml float_of_string as the strtod oracle"]
-LEVEL_TEXT = ("Theorems (Coq, no axioms) about the tokener model: integer tokens of any length convert exactly or saturate/reject beyond 64 bits; "
-              "every \\uXXXX unit and every surrogate pairing appends the reference UTF-8 bytes (exhaustive over all 65536 units and all 1024x1024 pairs, "
-              "by computation inside Coq); member insertion is first-occurrence order with last value; the refutation of the full statement for member "
-              "names containing U+0000 carries its witness.  The end-to-end statement parse_valid (for all syntax trees) is stated and proved for the "
-              "sub-grammar named in Properties_C01.v; the remaining constructors are covered by the differential correspondence only.")
-LEVEL_NOTE = ("Partial: parse_valid is not yet proved for the whole RFC 8259 grammar; the model is tied to json_tokener.c by sampled differential "
-              "execution; strtod is an oracle.")
+LEVEL_TEXT = ("Theorem parse_valid (Coq, no axioms, nested induction over syntax trees, no bound on size or depth): for EVERY RFC 8259 syntax tree "
+              "(every whitespace layout, escape form incl. any hex case, surrogate pairing / unpaired replacement, number shape, duplicate members, nesting "
+              "below the limit D, integers within the 64-bit ranges, member names without U+0000) in default AND strict mode the tokener model returns exactly "
+              "the denoted value with status success and the end offset at the end of the text; parse_depth: nesting >= D gives the depth error.  Integer tokens "
+              "of any length convert exactly or saturate/reject beyond 64 bits; the refutation for names containing U+0000 carries its witness (known finding).  "
+              "The model is tied to json_tokener.c on every run by differential execution on generated texts, and an independent denotation oracle checks the C output.")
+LEVEL_NOTE = ("Trusted: Coq kernel; strtod is an oracle (the theorem is stated for every oracle; the run compares libc with Python's correctly rounded float()); "
+              "the theorems are about the Gallina model, tied to the C code by sampled differential execution; extraction + OCaml glue; harness.")
 
 
 def gen(rng, tier):
